@@ -19,6 +19,7 @@ RAW = {
     "r42": "42", "rneg7": "-7", "r007": "007", "r0": "0", "ryes": "yes", "rtrue": "true", "rno": "no", "rfalse": "false",
     "rYes": "Yes", "rTrue": "True", "rFALSE": "FALSE", "rempty": "", "rhello": "hello", "rspaces": "hello big world",
     "rjson": '{"a": 1}', "rinfo": "info", "r4x": "4x", "rfloat": "1.5", "rmerged": "merged", "rdebug": "debug",
+    "rn": "n", "ry": "y", "rals": "als", "rru": "ru", "rnone": "none", "ryesno": "yesno",
 }
 WF = "from gwf import Workflow\ngwf = Workflow()\ngwf.target('one', inputs=[], outputs=['o1']) << 'echo one'\n"
 
@@ -109,8 +110,42 @@ def base_project(sb, conf):
     sb.render(squeue=[], sacct=[], qstat=[], bjobs=[])
 
 
+def drive_init(item):
+    """`gwf status` where no workflow exists (here or above): the offer to create a project."""
+    rid, scn, variant = item
+    sb = cli_defs.sandbox()
+    sb.reset()
+    here = sb.proj if scn["where"] == "root" else sb.path("new/place")
+    os.makedirs(here, exist_ok=True)
+    before = set(os.listdir(here))
+    answer = {"y": "y\n", "n": "n\n", "eof": ""}[scn["answer"]]
+    choice = "\n" if scn["choice"] == "default" else scn["choice"] + "\n"
+    # (a command that does not need the back end: the local one would wait for a worker pool)
+    r = sb.gwf(["config", "get", "verbose"], cwd=here, input=answer + (choice if scn["answer"] == "y" else ""))
+    created = sorted(set(os.listdir(here)) - before)
+    m = re.search(r"\[(\w+)\]:", r.stdout or "")      # the default the prompt offered
+    conf = os.path.join(here, ".gwfconf.json")
+    got = ""
+    if os.path.exists(conf):
+        g = sb.gwf(["config", "get", "backend"], cwd=here)
+        got = (g.stdout or "").strip()
+    raw = None
+    try:
+        raw = json.load(open(conf))
+    except (OSError, ValueError):
+        pass
+    obs = {"exit": r.exit_code if r.exc is None or isinstance(r.exc, SystemExit) else -1, "created": created, "guess": m.group(1) if m else "?",
+           "workflow_here": os.path.exists(os.path.join(here, "workflow.py")), "conf_here": os.path.exists(conf),
+           "stray_file": here != sb.proj and os.path.exists(sb.path(".gwfconf.json")),
+           "file": {k: {"t": "str" if isinstance(v, str) else "other", "v": v if isinstance(v, str) else 0} for k, v in (raw or {}).items()} if isinstance(raw, dict) else {},
+           "got": got, "err": (r.stderr or "")[-200:]}
+    return {"id": rid, "scn": dict(scn, variant=variant), "steps": [], "obs": obs}
+
+
 def drive_eff(item):
     rid, scn, variant = item
+    if scn["kind"] == "init":
+        return drive_init(item)
     sb = cli_defs.sandbox()
     kind = scn["kind"]
     obs = {"exit": 0}
